@@ -705,7 +705,9 @@ class ClientWorldObjectManager:
             if av_obj:
                 # Prefer the region handle from the Object if we have one
                 region_handle = av_obj.RegionHandle
-            assert region_handle is not None
+            if region_handle is None:
+                # Only known through a region that hasn't been given a handle yet, can't place it
+                continue
             self._avatars[av_key] = Avatar(
                 full_id=av_key,
                 region_handle=region_handle,
